@@ -94,6 +94,7 @@ def _runner_main(jobs_path: str, out_path: str) -> None:
             lab = labtech.Lab(storage=storage, context=D.lab_context(1, cfg['n']), runner_backend=cfg['backend'],
                               max_workers=(None if job.get('maxw_none') else cfg['maxw']),
                               continue_on_failure=cfg['cof'], notebook=False)
+            os.environ['LV_EMPTY_CTX'] = ','.join(str(t) for t in job.get('empty_ctx') or [])
             if job.get('ctx_pair'):
                 os.environ['LV_RICH'] = '1'      # results carry task objects (the task itself, its dependencies)
             if job.get('gated', True):
@@ -519,7 +520,9 @@ def to_trace(r: dict) -> dict:
     cfg = job['cfg']
     jb = ev[0]
     keys = D.lab_context(1, cfg['n'])
+    os.environ['LV_EMPTY_CTX'] = ','.join(str(x) for x in job.get('empty_ctx') or [])     # (the declared filters read it)
     ck = [U.expected_ctx_keys(cfg['typ'][t - 1], t, keys) for t in range(1, cfg['n'] + 1)]
+    os.environ.pop('LV_EMPTY_CTX', None)
     t = monitor.to_monitor(job['id'], cfg, ev[1:], real=True, caller_pid=jb['pid'], mark=jb['mark'], ctxkeys=ck)
     t['meta'] = {'hang': r['hang'], 'unused_actions': r['unused_actions'], 'events': len(ev), 'crashed': r.get('crashed', 0),
                  'unraisable': [[e.get('exc'), e.get('where'), e.get('msg')] for e in ev if e['e'] == 'unraisable']}
